@@ -204,3 +204,37 @@ P.assume('the token stream seen by a scan is a fixed sequence XS (verbatim categ
 P.unverified_surrounding('construction of the end markers from the escape / group characters, the delimiter pick of \\verb (first loop), Macro.source and '
                          'the per-node source rules, EscapeSequence.source, Array.source: covered only by the bounded native checks; '
                          '"the reconstructed math source is token-for-token what the author wrote" is bounded (bounded/math-source)')
+
+# ---------------------------------------------------------------------------------------------- Macro.source: local shape of the reconstructed source
+P.classes['Macro'].fields.update(argSource='str', attributes='dict[str,Any]?')
+for f_, t_ in (('argSource', 'str'), ('attributes', 'dict[str,Any]?')):
+    P.fields.setdefault(f_, t_)
+    P.field_variants.setdefault(f_, {})['Macro'] = t_
+P.const('Macro.MODE_BEGIN', 1)
+P.const('Macro.MODE_END', 2)
+P.uninterp('KIDSRC', ['Macro'], 'str')        # concatenated source of the children (sourceChildren)
+P.uninterp('HASKIDS', ['Macro'], 'bool')
+P.fn('sourceArguments', params=dict(o='Macro'), returns='str', ensures=['result == o.argSource'], trusted=True, modifies=[])
+P.fn('sourceChildren_', params=dict(o='Macro'), returns='str', ensures=['result == KIDSRC(o)'], trusted=True, modifies=[], notes='sourceChildren: children sources in order')
+P.fn('Macro.hasChildNodes', params=dict(self='Macro'), returns='bool', ensures=['result == HASKIDS(self)'], trusted=True, modifies=[])
+P.uninterp('LET', [], 'str')               # encoding.stringletters(): the letters (its content does not matter for the shape)
+P.fn('stringletters_', params={}, returns='str', ensures=['result == LET()'], trusted=True, modifies=[])
+NM, AS = 'self.nodeName', 'self.argSource'
+P.fn(FI + 'Macro.source', name='Macro.source', params=dict(self='Macro'), returns='str', kind='property',
+     requires=['"::" not in %s' % NM, 'len(%s) >= 1' % NM],
+     ensures=[
+         # \\end{name}
+         'implies(self.macroMode == 2, result == "\\\\end{" + %s + "}")' % NM,
+         # \\begin{name}<arguments or one blank>[children \\end{name}]
+         'implies(self.macroMode == 1 and not HASKIDS(self), result == "\\\\begin{" + %s + "}" + (%s if %s != "" else " "))' % (NM, AS, AS),
+         'implies(self.macroMode == 1 and HASKIDS(self), result == "\\\\begin{" + %s + "}" + (%s if %s != "" else " ") + KIDSRC(self) + "\\\\end{" + %s + "}")' % (NM, AS, AS, NM),
+         # \\name<arguments>: a blank when there is no argument; a blank before an argument that starts with a letter, unless the name is a
+         # single non-letter (control symbol)
+         'implies(self.macroMode != 1 and self.macroMode != 2 and %s == "", result[0:len(%s) + 2] == "\\\\" + %s + " ")' % (AS, NM, NM),
+         'implies(self.macroMode != 1 and self.macroMode != 2 and %s != "" and %s[0:1] in LET() and not (len(%s) == 1 and %s[0:1] not in LET()), '
+         'result[0:len(%s) + 2 + len(%s)] == "\\\\" + %s + " " + %s)' % (AS, AS, NM, NM, NM, AS, NM, AS),
+         'implies(self.macroMode != 1 and self.macroMode != 2 and %s != "" and not (%s[0:1] in LET() and not (len(%s) == 1 and %s[0:1] not in LET())), '
+         'result[0:len(%s) + 1 + len(%s)] == "\\\\" + %s + %s)' % (AS, AS, NM, NM, NM, AS, NM, AS)],
+     allocates=True, modifies=[],
+     calls={'sourceArguments': 'sourceArguments', 'sourceChildren': 'sourceChildren_', 'self.hasChildNodes': 'Macro.hasChildNodes',
+            'encoding.stringletters': 'stringletters_'})
